@@ -77,8 +77,12 @@ def _views(repo, ci, fn):
             raw.body = [_ExprInliner(Resolver(repo, ci, keep=frozenset(KEEP)), 2, (fn.name,)).visit(st) for st in clone(fn).body]
         kr = _kinetic_named(set_parents(ast.fix_missing_locations(raw)))
         kr._rel = getattr(v, "_rel", None)
-        _KV[k] = (kv, kr)
-    return [fn, v, _KV[k][0], _KV[k][1]]
+        # ... and the function as written with the locals that merely name an attribute (`max_depth = self.max_depth`) read through
+        from ..canon import substituted, structural
+        ka = substituted(structural(fn), only=lambda rhs: path_of(rhs) is not None and isinstance(rhs, ast.Attribute))
+        ka._rel = getattr(v, "_rel", None)
+        _KV[k] = (kv, kr, set_parents(ka))
+    return [fn, v, _KV[k][0], _KV[k][1], _KV[k][2]]
 
 
 _KV = {}
@@ -263,7 +267,9 @@ def _buildtree_on(chk, repo, ci, fn, src):
             problems.append("leaf: alpha' is not min(1, exp(H' - H))")
         d = dict(zip(reversed([a.arg for a in fn.args.args]), reversed(fn.args.defaults)))
         dm = b.get("Dmax")
-        if dm not in d or not (isinstance(d[dm], ast.Constant) and isinstance(d[dm].value, (int, float)) and d[dm].value >= 100):
+        from .common import default_literal
+        dv = default_literal(repo, ci, src, d[dm]) if dm in d else None
+        if dm not in d or not (isinstance(dv, (int, float)) and not isinstance(dv, bool) and dv >= 100):
             problems.append("Delta_max is not a parameter with a large positive default")
     chk.add("C08-R2", inst + "/leaf", not problems, site(repo, src), "leaf quantities as in Hoffman & Gelman Alg. 6", "; ".join(problems), src)
 
